@@ -24,6 +24,7 @@ func collect(repo string, f *facts) {
 	packFacts(f)
 	xformFacts(f)
 	cfgFacts(f)
+	clientFacts(f)
 }
 
 // ---- C16: Must… / panic sites in constructors ----
@@ -638,5 +639,176 @@ func timeFacts(f *facts) {
 		if seenParse {
 			f.bool["time_error_counted"] = bp(!early && counted)
 		}
+	}
+}
+
+// ---- C02: upstream client ----
+func clientFacts(f *facts) {
+	const sess = "output/baseoutput/clientsession.go"
+	const work = "output/baseoutput/clientworker.go"
+	f.note["client_acker_order"] = "runAcknowledger: source order of the ACK read, the pending-map insert / delete, the `continue` of the unknown-id branch and the consumed callback"
+	var order []string
+	if fd := fn(sess, "runAcknowledger", "clientSession"); fd != nil {
+		inspect(fd.Body, func(n ast.Node) bool {
+			switch x := n.(type) {
+			case *ast.FuncLit:
+				return false // the deferred hand-over of the pending map
+			case *ast.CallExpr:
+				switch src(x.Fun) {
+				case "session.conn.ReadChunkAck":
+					order = append(order, "read")
+				case "delete":
+					order = append(order, "delete:"+src(x.Args[0])+":"+src(x.Args[1]))
+				case "session.onChunkAcked":
+					order = append(order, "callback:"+src(x.Args[0]))
+				}
+			case *ast.AssignStmt:
+				if len(x.Lhs) == 1 && strings.HasPrefix(src(x.Lhs[0]), "pendingChunksByID[") {
+					order = append(order, "insert:"+src(x.Lhs[0]))
+				}
+			case *ast.BranchStmt:
+				order = append(order, x.Tok.String())
+			}
+			return true
+		})
+	}
+	f.strs["client_acker_order"] = order
+	f.note["client_acker_handover"] = "runAcknowledger: the deferred function stores the remaining pending map and signals ackerEnded (calls, in order)"
+	var hand []string
+	if fd := fn(sess, "runAcknowledger", "clientSession"); fd != nil {
+		inspect(fd.Body, func(n ast.Node) bool {
+			if d, ok := n.(*ast.DeferStmt); ok {
+				inspect(d.Call, func(m ast.Node) bool {
+					if c, ok := m.(*ast.CallExpr); ok && strings.HasPrefix(src(c.Fun), "session.") {
+						hand = append(hand, src(c.Fun))
+					}
+					return true
+				})
+				return false
+			}
+			return true
+		})
+	}
+	f.strs["client_acker_handover"] = hand
+	f.note["client_leftover_sources"] = "collectLeftovers: what is appended to newLeftovers, in order"
+	var sources []string
+	if fd := fn(sess, "collectLeftovers", "clientSession"); fd != nil {
+		inspect(fd.Body, func(n ast.Node) bool {
+			if c, ok := n.(*ast.CallExpr); ok && src(c.Fun) == "append" && len(c.Args) == 2 && src(c.Args[0]) == "newLeftovers" {
+				a := src(c.Args[1])
+				if c.Ellipsis != token.NoPos {
+					a += "..."
+				}
+				sources = append(sources, a)
+			}
+			return true
+		})
+	}
+	f.strs["client_leftover_sources"] = sources
+	f.note["client_leftover_sort"] = "newLeftoverChannel: comparison of the sort and the duplicate test"
+	var srt []string
+	if fd := fn(sess, "newLeftoverChannel", ""); fd != nil {
+		inspect(fd.Body, func(n ast.Node) bool {
+			switch x := n.(type) {
+			case *ast.CallExpr:
+				if src(x.Fun) == "sort.Slice" && len(x.Args) == 2 {
+					if fl, ok := x.Args[1].(*ast.FuncLit); ok && len(fl.Body.List) == 1 {
+						srt = append(srt, strings.Join(strings.Fields(src(fl.Body.List[0])), " "))
+					}
+				}
+			case *ast.IfStmt:
+				srt = append(srt, "if "+src(x.Cond))
+			}
+			return true
+		})
+	}
+	f.strs["client_leftover_sort"] = srt
+	f.note["client_last_chunk_assignments"] = "every assignment to session.lastChunk as function:value, and for the nil ones whether a `session.sendChunk(chunk)` call and an early return on failure precede it in the same loop body"
+	var lc []string
+	for _, name := range []string{"resendLeftovers", "processInput", "sendChunk", "collectLeftovers", "Run", "runAcknowledger"} {
+		fd := fn(sess, name, "clientSession")
+		if fd == nil {
+			continue
+		}
+		sent := false
+		guarded := false
+		inspect(fd.Body, func(n ast.Node) bool {
+			switch x := n.(type) {
+			case *ast.AssignStmt:
+				if len(x.Rhs) == 1 && src(x.Rhs[0]) == "session.sendChunk(chunk)" {
+					sent = true
+				}
+				if len(x.Lhs) == 1 && src(x.Lhs[0]) == "session.lastChunk" {
+					v := src(x.Rhs[0])
+					if v == "nil" {
+						v = fmt.Sprintf("nil(after-send=%v,after-failure-return=%v)", sent, guarded)
+					}
+					lc = append(lc, name+":"+v)
+				}
+			case *ast.IfStmt:
+				if sent && src(x.Cond) == "!ok" && endsInReturn(x.Body) {
+					guarded = true
+				}
+			}
+			return true
+		})
+	}
+	f.strs["client_last_chunk_assignments"] = lc
+	f.note["client_acker_chan_cap"] = "newClientSession: capacity expression of ackerChan and its value"
+	var capExpr []string
+	if fd := fn(sess, "newClientSession", ""); fd != nil {
+		inspect(fd.Body, func(n ast.Node) bool {
+			if kv, ok := n.(*ast.KeyValueExpr); ok && src(kv.Key) == "ackerChan" {
+				if c, ok := kv.Value.(*ast.CallExpr); ok && src(c.Fun) == "make" && len(c.Args) == 2 {
+					capExpr = append(capExpr, src(c.Args[1]))
+				}
+			}
+			return true
+		})
+	}
+	f.strs["client_acker_chan_cap"] = capExpr
+	f.note["client_acker_cap_value"] = "defs.ForwarderMaxPendingChunksForAck"
+	if v, ok := evalInt("defs/params.go", pkgValue("defs/params.go", "ForwarderMaxPendingChunksForAck"), 0); ok {
+		f.nat["client_acker_cap_value"] = ip(v)
+	} else {
+		f.nat["client_acker_cap_value"] = nil
+	}
+	f.note["client_worker_final"] = "ClientWorker.run: deferred calls (in source order) and the calls made for each remaining leftover"
+	var fin []string
+	if fd := fn(work, "run", "ClientWorker"); fd != nil {
+		inspect(fd.Body, func(n ast.Node) bool {
+			switch x := n.(type) {
+			case *ast.DeferStmt:
+				fin = append(fin, "defer "+src(x.Call.Fun))
+			case *ast.RangeStmt:
+				if src(x.X) == "leftovers" {
+					inspect(x.Body, func(m ast.Node) bool {
+						if c, ok := m.(*ast.CallExpr); ok && strings.HasPrefix(src(c.Fun), "client.on") {
+							fin = append(fin, "each-leftover "+src(c.Fun))
+						}
+						return true
+					})
+				}
+			}
+			return true
+		})
+	}
+	f.strs["client_worker_final"] = fin
+	f.note["client_callback_sites"] = "number of call sites of onChunkAcked / onChunkLeft / onFinished in output/baseoutput (non-test files)"
+	cnt := map[string]int64{}
+	for _, file := range []string{sess, work} {
+		inspect(parse(file), func(n ast.Node) bool {
+			if c, ok := n.(*ast.CallExpr); ok {
+				switch src(c.Fun) {
+				case "session.onChunkAcked", "client.onChunkAcked", "client.onChunkLeft", "client.onFinished":
+					cnt[src(c.Fun)]++
+				}
+			}
+			return true
+		})
+	}
+	f.prs["client_callback_sites"] = nil
+	for _, k := range []string{"session.onChunkAcked", "client.onChunkAcked", "client.onChunkLeft", "client.onFinished"} {
+		f.prs["client_callback_sites"] = append(f.prs["client_callback_sites"], [2]string{k, strconv.FormatInt(cnt[k], 10)})
 	}
 }
